@@ -133,6 +133,17 @@ func (a *Announce) updateInterfaces() {
 			}
 			a.ndps[ifi.Index] = resp
 			level.Info(l).Log("event", "createNDPResponder", "msg", "created NDP responder for interface")
+			// The addresses announced before this responder existed are watched by the
+			// other responders only: without their multicast groups it would never see
+			// a solicitation for them.
+			for ip, refcnt := range a.ipRefcnt {
+				if refcnt <= 0 {
+					continue
+				}
+				if err := resp.Watch(net.ParseIP(ip)); err != nil {
+					level.Error(l).Log("op", "watchMulticastGroup", "error", err, "ip", ip, "msg", "failed to watch NDP multicast group for IP, NDP responder will not respond to requests for this address")
+				}
+			}
 		}
 	}
 
